@@ -188,6 +188,29 @@ def run(rep, tier, rng):
                         if list(voc.keys()) != before:
                             rep.violation(f"looking up the special name {nm!r} changed the keys of a {vk} vocabulary", {"case": {"alg": al, "d": d, "vocab": vk}})
 
+    # ---- the inverse for a side through every entry point: pointer methods, parsed text, vocabulary-less pointers ----
+    from nengo_spa.semantic_pointer import SemanticPointer as _SP
+    for al in algs.ALGS:
+        A = algs.alg_obj(al)
+        for d in algs.dims_for(al, 9 if quick else 25):
+            av = algs.rand_vec(rng, d)
+            vq = _spa.Vocabulary(d, algebra=A)
+            vq.add("A", algs.fl(av))
+            free = _SP(algs.fl(av), algebra=A)
+            for sd, forms in (("SLeft", [("vocab['A'].linv()", lambda: vq["A"].linv().v), ("vocab.parse('A.linv()')", lambda: vq.parse("A.linv()").v),
+                                         ("SemanticPointer(a, algebra=A).linv()", lambda: free.linv().v)]),
+                              ("SRight", [("vocab['A'].rinv()", lambda: vq["A"].rinv().v), ("vocab.parse('A.rinv()')", lambda: vq.parse("A.rinv()").v),
+                                          ("SemanticPointer(a, algebra=A).rinv()", lambda: free.rinv().v)]),
+                              ("STwo", [("~vocab['A']", lambda: (~vq["A"]).v), ("vocab.parse('~A')", lambda: vq.parse("~A").v),
+                                        ("~SemanticPointer(a, algebra=A)", lambda: (~free).v)])):
+                for label, fn in forms:
+                    with _w.catch_warnings():
+                        _w.simplefilter("ignore")
+                        o = c.observe(fn)
+                    add(f"check_invert {al} {c.zlist(av)} {sd} {algs.tol_for(av)} {obs_t(o)}",
+                        {"op": "inverse-entry-point", "alg": al, "d": d, "side": sd, "a": av, "obs": c.obs_json(o), "py": f"{label} with a = {av}"},
+                        ("inv-entry", al, d, sd, label))
+
     # ---- call-history independence: the same queries in shuffled orders on one algebra object ----------
     # (every answer is a function of the arguments alone: an earlier request for another side / size
     # must not change it)
